@@ -1,1 +1,41 @@
-From Coq Require Import ZArith.
+(* C02 — Decoding arbitrary bytes is safe, bounded and never delivers garbage early.
+   Statements only; proofs in proofs/DecProofs.v.  decode_items is the single model of decode() that
+   Decode, DecodeViewBox and Disassemble project; byte strings are arbitrary lists (no well-formedness
+   hypothesis is needed for these theorems).
+   Pending (kept visible): prefix_monotone — forall a b, the calls delivered for a are a prefix of the
+   calls delivered for a ++ b.  The correspondence run checks it on every truncation of generated
+   streams; the proof needs suffix-independence lemmas for every reader and is not finished.
+   Termination of the Go loops is a fact about Go: what is proved is that the model never runs out of
+   its fuel (= input length), i.e. every iteration consumes at least one byte. *)
+From Coq Require Import ZArith Bool List.
+From IVG Require Import SF NumCodec Color Calls Decoder DecProofs.
+Import ListNotations.
+Local Open Scope Z_scope.
+
+(* never a panic, never fuel exhaustion: Done or a DecodeError, for every byte string *)
+Theorem decode_no_panic : forall os b, opts_in_range os -> outcome_ok (snd (decode_items os b)).
+Proof. exact DecProofs.decode_no_panic. Qed.
+Print Assumptions decode_no_panic.
+
+(* nothing is delivered unless the magic and every metadata chunk were valid; the first call is Reset *)
+Theorem nothing_before_metadata : forall os b,
+  let cs := fst (decode_calls os b) in
+  cs = [] \/ exists vb pal tl m rest its, cs = CReset vb pal :: tl /\ dec_metadata b = (its, ChunksOk m rest).
+Proof. exact DecProofs.nothing_before_metadata. Qed.
+Print Assumptions nothing_before_metadata.
+
+(* every delivered call consumed at least one input byte of its own *)
+Theorem calls_le_bytes : forall os b, (length (fst (decode_calls os b)) <= length b)%nat.
+Proof. exact DecProofs.calls_le_bytes. Qed.
+Print Assumptions calls_le_bytes.
+
+(* the instruction loop consumes at least one byte per iteration: with fuel = input length it never runs dry *)
+Theorem dec_ops_fuel_suffices : forall fuel drawing b its o, (length b <= fuel)%nat ->
+  dec_ops fuel drawing b = (its, o) ->
+  outcome_ok o /\ (ncalls its <= length (lbytes its))%nat /\
+  (o = Done -> lbytes its = b) /\ (exists t, b = lbytes its ++ t).
+Proof. exact DecProofs.dec_ops_ok. Qed.
+Print Assumptions dec_ops_fuel_suffices.
+
+Example ex_truncated : decode_calls [] [137; 73; 86; 71; 0; 192; 128] = ([CReset default_viewbox default_palette], Fail EInvalidNumber).
+Proof. vm_compute. reflexivity. Qed.
